@@ -4,6 +4,7 @@ package dkg
 
 import (
 	"context"
+	"fmt"
 	"math/big"
 
 	"github.com/bnb-chain/tss-lib/ecdsa/keygen"
@@ -242,13 +243,14 @@ func VerifC07NewPublicationState(
 
 // verifC07Persistence is a one-element read-only store for the parameter pool.
 type verifC07Persistence struct {
-	items []*PersistedPreParams
+	items     []*PersistedPreParams
+	deleteErr error
 }
 
 func (p *verifC07Persistence) Save(pp *PreParams) (*PersistedPreParams, error) {
 	return &PersistedPreParams{Data: *pp, ID: "verif"}, nil
 }
-func (p *verifC07Persistence) Delete(*PersistedPreParams) error { return nil }
+func (p *verifC07Persistence) Delete(*PersistedPreParams) error { return p.deleteErr }
 func (p *verifC07Persistence) ReadAll() ([]*PersistedPreParams, error) {
 	return p.items, nil
 }
@@ -294,4 +296,37 @@ func (v *VerifC07Member) VerifC07EphemeralPublicKeyMessage() (
 	error,
 ) {
 	return v.m.initializeEphemeralKeysGeneration().generateEphemeralKeyPair()
+}
+
+// ErrVerifC07PreParamsRequested is what the probe executor's pool answers when
+// the protocol asks for its pre-parameters.
+var ErrVerifC07PreParamsRequested = fmt.Errorf("verif: pre-parameters requested")
+
+// VerifC07NewProbeExecutor is VerifC07NewExecutor with a pool whose storage
+// refuses to hand out the pre-parameters: Execute then ends with an error
+// wrapping ErrVerifC07PreParamsRequested exactly when the protocol reaches the
+// initialization of TSS round one (no tss-lib computation is started).
+func VerifC07NewProbeExecutor(
+	logger log.StandardLogger,
+	preParams *keygen.LocalPreParams,
+) *Executor {
+	executor := VerifC07NewExecutor(logger, preParams, 1)
+	persistence := &verifC07Persistence{
+		items: []*PersistedPreParams{
+			{Data: *newPreParams(preParams), ID: "verif"},
+		},
+		deleteErr: ErrVerifC07PreParamsRequested,
+	}
+	executor.tssPreParamsPool.ParameterPool = generator.NewParameterPool[PreParams](
+		logger,
+		&generator.Scheduler{},
+		persistence,
+		1,
+		func(ctx context.Context) *PreParams {
+			<-ctx.Done()
+			return nil
+		},
+		0,
+	)
+	return executor
 }
